@@ -92,15 +92,15 @@ func newPool() []pv {
 	self.Append(self)
 	add("list-self", self)
 	deep := starlark.Value(mkList())
-	for i := 0; i < 200000; i++ {
+	for i := 0; i < 20000; i++ {
 		deep = mkList(deep)
 	}
-	add("list-deep200k", deep)
+	add("list-deep20k", deep)
 	deepT := starlark.Value(starlark.Tuple{})
-	for i := 0; i < 200000; i++ {
+	for i := 0; i < 20000; i++ {
 		deepT = starlark.Tuple{deepT}
 	}
-	add("tuple-deep200k", deepT)
+	add("tuple-deep20k", deepT)
 
 	add("tuple-empty", starlark.Tuple{})
 	add("tuple-1", starlark.Tuple{I(1)})
